@@ -143,13 +143,21 @@ def World.onHeads (w : World) (toks : List String) : World :=
 def World.onLoadEnd (w : World) (toks : List String) : World :=
   let p := peerNum (toks.getD 1 "")
   let logs := parseLogs w (toks.getD 2 "")
-  let (s', _) := (w.store p).loadEnd w.acl logs
-  w.setStore p s'
+  w.setStore p ((w.store p).loadEnd w.acl logs)
 
 def World.onSynced (w : World) (toks : List String) : World :=
   let p := peerNum (toks.getD 1 "")
   let w := if arg toks "quiesce" != "true" then w.fail "C11" "quiesce" s!"peer {p} did not become quiescent after sync" else w
-  w
+  if w.pending.headD "" == "inject" then
+    -- manual Sync of crafted heads: the pre-check loop of `Sync` decides the returned error
+    let heads := (commaList (arg w.pending "heads")).filterMap (fun n =>
+      (w.entry (entryNum (n.replace "!" ""))).map (fun e => if n.endsWith "!" then { e with hashOk := false } else e))
+    let model := syncPrecheck w.acl heads
+    let impl := toks.getD 2 ""
+    if (model == .ok) != (impl == "ok") then
+      w.fail "corr" "sync" s!"peer {p}: Sync({arg w.pending "heads"}) model {model}, implementation {impl}"
+    else w
+  else w
 
 def parseStatus (s : String) : Int × Int :=
   match s.splitOn "/" with
@@ -223,7 +231,7 @@ def World.onObs (w : World) (toks : List String) : World :=
         | _, _ => w) w) w
   -- C03 / C04: only authorised, well-addressed entries of this database are visible
   let w := ients.foldl (fun w e =>
-      let w := if !(w.acl.canAppend e) || e.key != e.ident || !e.sigOk then
+      let w := if !(w.acl.canAppend e) || e.key != e.ident || !e.identOk || !e.sigOk then
         w.fail "C03" "member" s!"peer {p}: e{e.hash} (ident {e.ident}, key {e.key}) is visible but not authored by an authorised writer" else w
       if e.logId != 1 || !e.hashOk then w.fail "C04" "member" s!"peer {p}: e{e.hash} is visible but tampered or written for another database" else w) w
   let w := if iv.length != ilen || !(iv.all (fun h => h != 0)) then w.fail "C04" "shape" s!"peer {p}: Len()={ilen} but {iv.length} entries listed ({arg toks "values"})" else w
@@ -389,6 +397,22 @@ def World.step (w : World) (line : String) : World :=
   | "settled" =>
     let p := peerNum (toks.getD 1 "")
     if arg toks "quiesce" == "true" then { w with inflight := w.inflight.filter (· != p), resync := p :: w.resync.filter (· != p) } else w
+  | "final11" =>
+    -- C11: after aborted requests, an uncancelled request for the same or newer heads made everything visible
+    w.stores.foldl (fun w (p, _) =>
+      let o := w.obsOf p
+      if !o.seen then w else
+      let missing := w.acked.filter (fun n => !o.values.contains n)
+      if missing.isEmpty then w else
+        w.fail "C11" "wedged" s!"peer {p} still lacks {showNums (sortNums missing)} after an uncancelled request for the same or newer heads") w
+  | "final10" =>
+    -- C10: after the honest re-announcement every valid acknowledged write is visible everywhere
+    w.stores.foldl (fun w (p, _) =>
+      let o := w.obsOf p
+      if !o.seen then w else
+      let missing := w.acked.filter (fun n => !o.values.contains n)
+      if missing.isEmpty then w else
+        w.fail "C10" "blocked" s!"peer {p} still lacks valid acknowledged writes {showNums (sortNums missing)} after an honest re-announcement") w
   | "msg" => w.onMsg toks
   | "delivered" => w.onDelivered toks
   | "restarted" => w.onRestarted toks
